@@ -361,7 +361,7 @@ class SlidingWindowTransformer(BaseEstimator, TransformerMixin):
                 self.window_width, size=self.window_sample_size, replace=False
             )
         elif np.issubdtype(type(self.window_sample), np.integer):
-            self.window_sample_ = np.arange(self.window_width, self.window_sample)
+            self.window_sample_ = np.arange(0, self.window_width, self.window_sample)
         elif type(self.window_sample) in (list, tuple) and len(self.window_sample) == 2:
             start, stride = self.window_sample
             if np.issubdtype(type(start), np.integer) and np.issubdtype(
